@@ -134,6 +134,17 @@ var connModel = porcupine.Model{
 	},
 }
 
+var longQuery = func() string {
+	var sb strings.Builder
+	for i := 0; i < 400; i++ {
+		if i > 0 {
+			sb.WriteByte('&')
+		}
+		fmt.Fprintf(&sb, "rs=v%d", i)
+	}
+	return sb.String()
+}()
+
 func runConnHistory(r *mon.Run, e *connEnv, rng *rand.Rand, readers, writers int) {
 	// extra local services registered by a third writer while the
 	// connection writers run: a RegisterConn that works on a stale clone
@@ -220,8 +231,15 @@ func runConnHistory(r *mon.Run, e *connEnv, rng *rand.Rand, readers, writers int
 					meth = connMethods - 1
 				}
 				flip++
+				// some requests carry a long query string: query parsing sits
+				// between route matching and handler lookup, so it widens the
+				// window in which a request could straddle two snapshots
+				query := ""
+				if lr.Intn(3) == 0 {
+					query = longQuery
+				}
 				a := rec.now()
-				resp := wire.Serve(mux, wire.BodyRequest("GET", fmt.Sprintf("/cx/m%d/v", meth), "", nil, nil))
+				resp := wire.Serve(mux, wire.BodyRequest("GET", fmt.Sprintf("/cx/m%d/v", meth), query, nil, nil))
 				b := rec.now()
 				if resp.Wedged {
 					r.Inconclusive("proxied request did not return")
@@ -242,7 +260,12 @@ func runConnHistory(r *mon.Run, e *connEnv, rng *rand.Rand, readers, writers int
 					if body.Tag != "b1" && body.Tag != "b2" {
 						viol("proxied-reply-without-backend-tag", fmt.Sprintf("200 with body %.100s", resp.Body))
 					}
-				case http.StatusNotFound, http.StatusNotImplemented, http.StatusBadRequest:
+				case http.StatusNotImplemented:
+					// a matched route whose handler list is empty: no single
+					// published snapshot has that (routes and handlers of a
+					// connection are added and removed together)
+					viol("route-without-handler", fmt.Sprintf("501 for /cx/m%d: the route was matched but no handler was found; the request was resolved against two different routing states or a torn one", meth))
+				case http.StatusNotFound, http.StatusBadRequest:
 				default:
 					// e.g. 503 while a backend connection is being torn down:
 					// not a routing observation
